@@ -29,6 +29,16 @@ Proof.
     rewrite with_holder_cons. apply lift_ok. exists s'. split; [apply Hall; exact H2|reflexivity].
 Qed.
 
+Lemma holder_swap_ex path m (K : N -> msg -> outcome (msg * unit)) (K2 : nat -> N -> msg -> outcome (msg * unit)) m' :
+  wf m -> omap fst (with_holder path m K) = Ok m' ->
+  (forall n h r0, wf h -> K n h = Ok r0 -> exists f', K2 f' n h = Ok r0) ->
+  exists f', omap fst (with_holder path m (K2 f')) = Ok m'.
+Proof.
+  intros W H HK. unfold omap in H. destruct (with_holder path m K) as [[m1 x]| | |] eqn:E; cbn [obind fst] in H; try discriminate.
+  injection H as <-. destruct (with_holder_call path m K (m1, x) W E) as (n & h & r0 & Wh & Hk & Hall).
+  destruct (HK n h r0 Wh Hk) as (f' & Hk'). exists f'. rewrite (Hall (K2 f') Hk'). reflexivity.
+Qed.
+
 Section Lenient.
   Variable orc : oracles.
   Variable e : env.
@@ -357,4 +367,147 @@ Section Lenient2.
       + apply elem_more_fuel. exact Hx'.
       + rewrite Nat.add_comm. apply (tr_map_more_fuel orc e f2 f1); [exact Hrest'|discriminate].
   Qed.
+  (* ------------------------------------------------------------ a member value *)
+  Lemma P_step n : O_at n -> N_at n -> A_at n -> M_at n -> P_at (S n).
+  Proof.
+    intros HO HN HA HM ty j j' Hsz Hl f d p m m' Hty W H. revert H. revert Hty.
+    inversion Hl as [ty0 j0 | k j0 j0' Hc Hc' Hn Hs | ref prefix opts s s' Hlk Ho
+                    | ref props ms nulls ms1 ms' Hlk Hnull Hne P Hm
+                    | ref props ms ms' Hlk Hm | item js js' Hi | item ms ms' He]; subst; intros Hty H.
+    - exists f. exact H.
+    - destruct f as [|f]; [discriminate|]. exists (S f). rewrite tr_present_S in *. rewrite Hty in *.
+      rewrite Hc in H. rewrite Hc', <- Hs. exact H.
+    - destruct f as [|f]; [discriminate|]. exists (S f). rewrite tr_present_S in *. rewrite Hty in *.
+      rewrite Hlk in *. rewrite <- Ho. exact H.
+    - (* object *)
+      destruct f as [|f]; [discriminate|]. rewrite tr_present_S in H. rewrite Hty, Hlk in H. rewrite jsize_obj in Hsz.
+      destruct (holder_swap_ex (p_path p) m _
+                  (fun f' n h => let '(sub, h1) := msg_mutable (p_siblings p) n h in
+                                 obind (tr_object orc e f' d props ms' sub []) (fun sub' => Ok (msg_put n (VMsg sub') h1, tt)))
+                  m' W H) as (f' & H').
+      { intros n0 h r0 Wh Hk. pose proof (proj1 (wf_mutable (p_siblings p) n0 h Wh)) as Ws.
+        destruct (msg_mutable (p_siblings p) n0 h) as [sub h1]. cbn [fst] in Ws.
+        destruct (tr_object orc e f d props ms sub []) as [sub'| | |] eqn:E; cbn [obind] in Hk; try discriminate.
+        destruct (HO props ms nulls ms1 ms' ltac:(lia) (Henv ref props (or_introl Hlk)) Hnull Hne P Hm f d sub [] sub' Ws E) as (f' & E').
+        exists f'. rewrite E'. exact Hk. }
+      exists (S f'). rewrite tr_present_S, Hty, Hlk. exact H'.
+    - (* oneof *)
+      destruct f as [|f]; [discriminate|]. rewrite tr_present_S in H. rewrite Hty, Hlk in H. rewrite jsize_obj in Hsz.
+      destruct (p_path p) as [|a r] eqn:Ep.
+      + destruct (HN props ms ms' ltac:(lia) Hm f d m [] [] None m' W H) as (f' & H').
+        exists (S f'). rewrite tr_present_S, Hty, Hlk, Ep. exact H'.
+      + destruct (holder_swap_ex (a :: r) m _
+                    (fun f' n h => let '(sub, h1) := msg_mutable (p_siblings p) n h in
+                                   obind (tr_oneof orc e f' d props ms' sub [] [] None) (fun sub' => Ok (msg_put n (VMsg sub') h1, tt)))
+                    m' W H) as (f' & H').
+        { intros n0 h r0 Wh Hk. pose proof (proj1 (wf_mutable (p_siblings p) n0 h Wh)) as Ws.
+          destruct (msg_mutable (p_siblings p) n0 h) as [sub h1]. cbn [fst] in Ws.
+          destruct (tr_oneof orc e f d props ms sub [] [] None) as [sub'| | |] eqn:E; cbn [obind] in Hk; try discriminate.
+          destruct (HN props ms ms' ltac:(lia) Hm f d sub [] [] None sub' Ws E) as (f' & E').
+          exists f'. rewrite E'. exact Hk. }
+        exists (S f'). rewrite tr_present_S, Hty, Hlk, Ep. exact H'.
+    - (* array *)
+      destruct f as [|f]; [discriminate|]. rewrite tr_present_S in H. rewrite Hty in H. rewrite jsize_arr in Hsz.
+      assert (G : exists f', omap fst (with_holder (p_path p) m (fun n h =>
+                     let existing := match msg_get n h with Some (VList l) => l | _ => [] end in
+                     obind (tr_array orc e f' d item js' existing) (fun l => Ok (msg_set true (p_siblings p) n (VList l) h, tt)))) = Ok m').
+      { assert (H0 : omap fst (with_holder (p_path p) m (fun n h =>
+                     let existing := match msg_get n h with Some (VList l) => l | _ => [] end in
+                     obind (tr_array orc e f d item js existing) (fun l => Ok (msg_set true (p_siblings p) n (VList l) h, tt)))) = Ok m')
+          by (destruct item; try discriminate; exact H).
+        apply (holder_swap_ex (p_path p) m _
+                 (fun f' n h => let existing := match msg_get n h with Some (VList l) => l | _ => [] end in
+                                obind (tr_array orc e f' d item js' existing) (fun l => Ok (msg_set true (p_siblings p) n (VList l) h, tt)))
+                 m' W H0).
+        intros n0 h r0 Wh Hk. cbv zeta in Hk.
+        destruct (tr_array orc e f d item js _) as [l| | |] eqn:E; cbn [obind] in Hk; try discriminate.
+        destruct (HA item js js' ltac:(lia) Hi f d _ l E) as (f' & E'). exists f'. cbv zeta. rewrite E'. exact Hk. }
+      destruct G as (f' & G). exists (S f'). rewrite tr_present_S, Hty.
+      destruct item; try discriminate; exact G.
+    - (* map *)
+      destruct f as [|f]; [discriminate|]. rewrite tr_present_S in H. rewrite Hty in H. rewrite jsize_obj in Hsz.
+      assert (G : exists f', omap fst (with_holder (p_path p) m (fun n h =>
+                     let existing := match msg_get n h with Some (VMap l) => l | _ => [] end in
+                     obind (tr_map orc e f' d item ms' existing) (fun l => Ok (msg_set true (p_siblings p) n (VMap l) h, tt)))) = Ok m').
+      { assert (H0 : omap fst (with_holder (p_path p) m (fun n h =>
+                     let existing := match msg_get n h with Some (VMap l) => l | _ => [] end in
+                     obind (tr_map orc e f d item ms existing) (fun l => Ok (msg_set true (p_siblings p) n (VMap l) h, tt)))) = Ok m')
+          by (destruct item; try discriminate; exact H).
+        apply (holder_swap_ex (p_path p) m _
+                 (fun f' n h => let existing := match msg_get n h with Some (VMap l) => l | _ => [] end in
+                                obind (tr_map orc e f' d item ms' existing) (fun l => Ok (msg_set true (p_siblings p) n (VMap l) h, tt)))
+                 m' W H0).
+        intros n0 h r0 Wh Hk. cbv zeta in Hk.
+        destruct (tr_map orc e f d item ms _) as [l| | |] eqn:E; cbn [obind] in Hk; try discriminate.
+        destruct (HM item ms ms' ltac:(lia) He f d _ l E) as (f' & E'). exists f'. cbv zeta. rewrite E'. exact Hk. }
+      destruct G as (f' & G). exists (S f'). rewrite tr_present_S, Hty.
+      destruct item; try discriminate; exact G.
+  Qed.
+
+  Lemma level_0 : level 0.
+  Proof.
+    repeat split.
+    - intros ty j j' Hsz. pose proof (jsize_pos j). lia.
+    - intros props ms nulls ms1 ms' Hsz PC Hnull Hne P Hl f d m seen m' W H.
+      destruct ms as [|[k v] r]; [|rewrite msize_cons in Hsz; lia].
+      destruct Hne as [->|Hne]; [|congruence]. cbn [app] in P. apply Permutation_nil in P. subst ms1.
+      inversion Hl; subst. exists f. exact H.
+    - intros props ms ms' Hsz Hl f d m seen found c m' W H.
+      destruct ms as [|[k v] r]; [|rewrite msize_cons in Hsz; lia]. inversion Hl; subst. exists f. exact H.
+    - intros item js js' Hsz Hl f d acc l H.
+      destruct js as [|v r]; [|rewrite lsize_cons in Hsz; pose proof (jsize_pos v); lia]. inversion Hl; subst. exists f. exact H.
+    - intros item ms ms' Hsz Hl f d acc l H.
+      destruct ms as [|[k v] r]; [|rewrite msize_cons in Hsz; lia]. inversion Hl; subst. exists f. exact H.
+  Qed.
+
+  Lemma level_all n : level n.
+  Proof.
+    induction n as [|n (HP & HO & HN & HA & HM)]; [exact level_0|].
+    repeat split; [apply P_step | apply O_step | apply N_step | apply A_step | apply M_step]; assumption.
+  Qed.
+
+  (* the object body of a document *)
+  Theorem lenient_object props ms nulls ms1 ms' f d m seen m' :
+    props_commute e props -> null_members props nulls -> (nulls = [] \/ ms <> []) ->
+    Permutation (nulls ++ ms) ms1 -> lenient_members props ms1 ms' -> wf m ->
+    tr_object orc e f d props ms m seen = Ok m' -> exists f', tr_object orc e f' d props ms' m seen = Ok m'.
+  Proof.
+    intros PC Hnull Hne P Hl W H.
+    destruct (level_all (msize ms)) as (_ & HO & _).
+    exact (HO props ms nulls ms1 ms' (le_n _) PC Hnull Hne P Hl f d m seen m' W H).
+  Qed.
 End Lenient2.
+
+(* JSONToProto accepted a document that the tokenizer reads as the object ms: it accepts, with the same
+   message, every document whose root object is obtained from ms by adding explicit nulls (when ms is
+   not empty, or none), reordering the members, and replacing member values by lenient variants *)
+Theorem lenient_document orc e root props bs bs' ms nulls ms1 ms' rest rest' me me' m' :
+  env_ok e -> lookup e root = Some (SObject props) ->
+  lex bs = (tokens_of (JObj ms) ++ rest, me) -> lex bs' = (tokens_of (JObj ms') ++ rest', me') ->
+  null_members props nulls -> (nulls = [] \/ ms <> []) -> Permutation (nulls ++ ms) ms1 ->
+  lenient_members orc e props ms1 ms' ->
+  decode_bytes orc e root bs = Ok m' -> decode_bytes orc e root bs' = Ok m'.
+Proof.
+  intros Henv Hl Hlex Hlex' Hnull Hne P Hm Hd.
+  rewrite (decode_bytes_tree orc e root bs (JObj ms) rest me Hlex) in Hd. unfold tr_decode in Hd. rewrite Hl in Hd.
+  destruct (lenient_object orc e Henv props ms nulls ms1 ms' _ 0 [] [] m' (Henv root props (or_introl Hl)) Hnull Hne P Hm wf_nil Hd)
+    as (f' & Hf').
+  exact (settle_at orc e root bs' ms' rest' me' props m' f' Hl Hlex' Hf').
+Qed.
+
+Lemma env_ok_of_check e : CodecDecCommute.env_commute e = true -> env_ok e.
+Proof. intros H ref props Hl. exact (env_commute_sound e ref props H Hl). Qed.
+
+(* leaves: what the scalar theorems establish plugs in through L_scalar; e.g. one instant written at two offsets *)
+From J5V.proofs Require CodecDecTime.
+Lemma timestamp_lenient orc e f g : J5V.proofs.CodecDecTime.time_oracle_is_model orc ->
+  J5V.proofs.CodecDecTime.shape f -> J5V.proofs.CodecDecTime.shape g ->
+  J5V.proofs.CodecDecTime.in_range f = true -> J5V.proofs.CodecDecTime.in_range g = true ->
+  J5V.proofs.CodecDecTime.instant f = J5V.proofs.CodecDecTime.instant g ->
+  J5V.proofs.CodecDecTime.nanos f = J5V.proofs.CodecDecTime.nanos g ->
+  lenient orc e (FScalar KTimestamp) (JStr (J5V.proofs.CodecDecTime.text f)) (JStr (J5V.proofs.CodecDecTime.text g)).
+Proof.
+  intros Ho Hf Hg Rf Rg Hi Hn. apply L_scalar; try reflexivity.
+  - split; discriminate.
+  - cbn [goval_of_json]. exact (J5V.proofs.CodecDecTime.timestamp_any_offset orc f g Ho Hf Hg Rf Rg Hi Hn).
+Qed.
